@@ -59,7 +59,7 @@ pub struct DevInner {
     pub nops: u64,
     /// number of transfers (read or write calls) so far, for Chunking::One
     pub ntransfers: u64,
-    pub fault_at: Option<(u64, FaultMode)>,
+    pub fault_at: Vec<(u64, FaultMode)>,
     pub dead: bool,
     pub faults_fired: u32,
     pub chunking: Chunking,
@@ -82,7 +82,7 @@ impl Dev {
             call: 0,
             nops: 0,
             ntransfers: 0,
-            fault_at: None,
+            fault_at: vec![],
             dead: false,
             faults_fired: 0,
             chunking: Chunking::Full,
@@ -118,8 +118,9 @@ impl Dev {
     pub fn faults_fired(&self) -> u32 {
         self.0.borrow().faults_fired
     }
+    /// may be called several times: every listed operation fails
     pub fn fail_at(&self, k: u64, mode: FaultMode) {
-        self.0.borrow_mut().fault_at = Some((k, mode));
+        self.0.borrow_mut().fault_at.push((k, mode));
     }
     pub fn set_chunking(&self, c: Chunking) {
         self.0.borrow_mut().chunking = c;
@@ -127,7 +128,7 @@ impl Dev {
     pub fn heal(&self) {
         let mut d = self.0.borrow_mut();
         d.dead = false;
-        d.fault_at = None;
+        d.fault_at.clear();
     }
 }
 
@@ -137,10 +138,10 @@ impl DevInner {
         let k = self.nops;
         self.nops += 1;
         let mut fail = self.dead;
-        if let Some((at, mode)) = self.fault_at {
-            if at == k {
+        for (at, mode) in self.fault_at.iter() {
+            if *at == k {
                 fail = true;
-                if mode == FaultMode::Persistent {
+                if *mode == FaultMode::Persistent {
                     self.dead = true;
                 }
             }
